@@ -247,9 +247,12 @@ class MibCompiler(object):
 
                         parsedMibs[mibInfo.name] = fileInfo, mibInfo, mibTree
 
-                        if mibname in failedMibs:
-                            del failedMibs[mibname]
-                            processed.pop(mibname, None)
+                        # the module is available now, whatever went wrong with
+                        # it (or with the name it was asked for by) before
+                        for staleName in (mibname, mibInfo.name):
+                            if staleName in failedMibs:
+                                del failedMibs[staleName]
+                                processed.pop(staleName, None)
 
                         mibsToParse.extend(mibInfo.imported)
 
